@@ -27,6 +27,8 @@ type Case struct {
 	Every int `json:"every,omitempty"`
 	// NoRefCheck (L1): rib.DisableRIBCheckFn - no resolvability checks, no deletion protection
 	NoRefCheck bool `json:"norefcheck,omitempty"`
+	// ReElect (L2/L3): the session raises its own election id after every n-th request
+	ReElect int `json:"reelect,omitempty"`
 }
 
 func setup() {
